@@ -447,6 +447,8 @@ pub fn fuzz_file(data: &[u8]) -> CaseResult {
         _ => d / 2,
     };
     let c = Case { header, len, fix_checksum: sel & 0x80 == 0 };
-    let mut rec = Rec::scratch("C19");
-    exec_case(&c, &mut rec, false).map_err(|f| Fail::new(f.sig, format!("{} [case {}]", f.detail, case_json(&finalize(&c)))))
+    thread_local! {
+        static SCRATCH: std::cell::RefCell<Rec> = std::cell::RefCell::new(Rec::scratch("C19"));
+    }
+    SCRATCH.with(|r| exec_case(&c, &mut r.borrow_mut(), false)).map_err(|f| Fail::new(f.sig, format!("{} [case {}]", f.detail, case_json(&finalize(&c)))))
 }
